@@ -23,6 +23,16 @@ def same_entry(a, b):
     return abs(a - b) <= 1e-9 * max(abs(a), abs(b)) + 1e-300
 
 
+def cut_per_tag(viols, k=4):
+    """Up to k reports PER TAG: a plain cut after k would let the hits of a known finding crowd out a new violation."""
+    kept, cnt = [], {}
+    for tag, v in viols:
+        cnt[tag] = cnt.get(tag, 0) + 1
+        if cnt[tag] <= k:
+            kept.append((tag, v))
+    return kept
+
+
 def get_universe(key):
     if key not in _U:
         cname, tgrid, Lt, Lx, pre = key
@@ -99,7 +109,7 @@ def pairs_chunk(item):
                     if pos:
                         v['log10_lower_bound_exact'] = lg
                         out['viols'].append(('nonpositive-but-exact>1e-250', v))
-    out['viols'] = [(t, d) if not isinstance(d, bool) else (t, d) for t, d, *rest in out['viols']][:4]
+    out['viols'] = cut_per_tag([(t, d) for t, d, *rest in out['viols']], 4)
     return out
 
 
@@ -170,24 +180,49 @@ def pointwise_task(key):
                                 rec['reference'] = refv
                                 rec['regime'] = 'h_x^2/tau>16' if (xb - xa)**2 > 16 * (t - a) else 'h_x^2/tau<=16'
                                 out['viols'].append(('causal-not-positive', rec))
-    # evaluate_vector: zero exactly for every element that starts at or after t, equal to evaluate otherwise
-    m = U[max(U)][0]
+    # evaluate_vector / potential_vector: zero exactly for every element that starts at or after t, equal to evaluate / potential
+    # otherwise.  Call history on ONE operator in the driver's lifecycle (SL.mesh = m; SL._init_elems(leaves)): the level meshes
+    # of the universe are served one after the other, coarse to fine and back, at the SAME times - what a vector call at time t
+    # leaves behind on the operator must not change the answer of the next one on another mesh.
     SLm = universe.make_SL(key[0], False, key[1])
-    SLm.mesh = m
-    SLm._init_elems(m.leaf_elements)
-    leaves = list(m.leaf_elements)
-    for t in sorted(set(x for e in leaves for x in e.time_interval)):
-        for xh in (0.0, L / 7, L / 2):
-            vec = SLm.evaluate_vector(t, xh)
-            for j, e in enumerate(leaves):
-                out['n'] += 1
-                if t <= e.time_interval[0]:
-                    out['zero_checks'] += 1
-                    if vec[j] != 0.0:
-                        out['viols'].append(('evaluate_vector-acausal-nonzero', {'curve': key[0], 't': t, 'x_hat': xh, 'j': j}))
-                elif not same_entry(vec[j], SLm.evaluate(e, t, xh, g.eval(xh).reshape(2, 1))):
-                    out['viols'].append(('evaluate_vector-differs', {'curve': key[0], 't': t, 'x_hat': xh, 'j': j}))
-    out['viols'] = out['viols'][:4]
+    lv = sorted(U)
+    ts_all = sorted(set(x for e in U[max(U)][0].leaf_elements for x in e.time_interval))
+    shift = np.array([[0.013], [0.007]])
+    out['vector_history_meshes'] = 0
+    for t in ts_all:  # time outermost: consecutive vector calls at ONE time on DIFFERENT meshes
+        for step, lvl in enumerate(lv + lv[::-1][1:]):
+            m = U[lvl][0]
+            SLm.mesh = m
+            SLm._init_elems(m.leaf_elements)
+            leaves = list(m.leaf_elements)
+            out['vector_history_meshes'] += 1
+            for xh in ((0.0, L / 7, L / 2) if step == len(lv) - 1 else (L / 7, )):
+                xp = g.eval(xh).reshape(2, 1) + shift
+                try:
+                    vec = SLm.evaluate_vector(t, xh)
+                    vecp = SLm.potential_vector(t, xp)
+                except Exception as ex:  # noqa: BLE001 - a legitimate call in the driver's lifecycle
+                    out['viols'].append(('vector-call-raised', {'curve': key[0], 't': t, 'x_hat': xh, 'level': lvl, 'history_step': step, 'exc': repr(ex)}))
+                    continue
+                if len(vec) != len(leaves) or len(vecp) != len(leaves):
+                    out['viols'].append(('vector-length', {'curve': key[0], 't': t, 'x_hat': xh, 'level': lvl, 'history_step': step}))
+                    continue
+                for j, e in enumerate(leaves):
+                    out['n'] += 2
+                    rec = {'curve': key[0], 't': t, 'x_hat': xh, 'j': j, 'level': lvl, 'history_step': step}
+                    if t <= e.time_interval[0]:
+                        out['zero_checks'] += 2
+                        if vec[j] != 0.0:
+                            out['viols'].append(('evaluate_vector-acausal-nonzero', rec))
+                        if vecp[j] != 0.0:
+                            out['viols'].append(('potential_vector-acausal-nonzero', rec))
+                    else:
+                        if not same_entry(vec[j], SLm.evaluate(e, t, xh, g.eval(xh).reshape(2, 1))):
+                            out['viols'].append(('evaluate_vector-differs', rec))
+                        if not same_entry(vecp[j], SLm.potential(e, t, xp)):
+                            out['viols'].append(('potential_vector-differs', rec))
+    # keep up to four reports PER TAG (a plain cut after four would let the hits of a known finding crowd out a new violation)
+    out['viols'] = cut_per_tag(out['viols'], 4)
     return out
 
 
@@ -302,7 +337,7 @@ def matrix_task(item):
             for j, tr in enumerate(elems):
                 if te.time_interval[0] >= tr.time_interval[1] and not same_entry(A[i, j], SL.bilform(tr, te)):
                     out['viols'].append(('matrix-orientation', {'cfg': cfgname, 'history': h, 'i': i, 'j': j, 'path': name}))
-    out['viols'] = out['viols'][:3]
+    out['viols'] = cut_per_tag(out['viols'], 3)
     return out
 
 
